@@ -129,7 +129,7 @@ Theorem harmless_unlocked s h :
   step s (OClone h) = Ok (s, RNullHandle) /\
   (forall sid, step s (ORemoveShared h sid) = Ok (s, RBool false)).
 Proof.
-  intros Hl Hv. repeat split; intros; simpl; rewrite ?Hl; unfold remove_shared, bind; rewrite ?destroy_now_invalid by assumption;
+  intros Hl Hv. repeat split; intros; simpl; rewrite ?Hl; unfold remove_shared, get_mut, mark_dirty, bind; rewrite ?destroy_now_invalid by assumption;
     rewrite ?Hv; simpl; reflexivity.
 Qed.
 
